@@ -35,6 +35,7 @@ type simStore struct {
 	crashAt int      // 1-based Put number to tear; 0 = never
 	tornNum int      // torn length = len*tornNum/tornDen (strictly shorter than the body)
 	tornDen int
+	tornFull bool // the crashing Put is stored completely (crash between two Puts)
 	crashed bool
 	tornKey string
 	tornLen int
@@ -79,8 +80,11 @@ func (s *simStore) Put(_ context.Context, put backup.PutObject) error {
 		if s.tornDen > 0 {
 			n = len(body) * s.tornNum / s.tornDen
 		}
-		if n >= len(body) && len(body) > 0 {
+		if n >= len(body) && len(body) > 0 && !s.tornFull {
 			n = len(body) - 1
+		}
+		if s.tornFull {
+			n = len(body) // the object reached the store completely; the process died before it learnt so
 		}
 		s.objects[put.Key] = object{body: append([]byte(nil), body[:n]...)}
 		s.crashed, s.tornKey, s.tornLen, s.fullLen = true, put.Key, n, len(body)
